@@ -13,7 +13,9 @@ Record stobs := {
   (* phase 2: rounds of one live publish to a fresh Once handler, racing with publishes on a cancelled context *)
   so_once_lost : nat;                   (* rounds in which the Once handler did not fire exactly once *)
   so_once_stale : nat;                  (* rounds after which it was still counted as subscribed *)
-  so_dead_seen : nat                    (* rounds in which it was handed an event published with the cancelled context *)
+  so_dead_seen : nat;                   (* rounds in which it was handed an event published with the cancelled context *)
+  (* phase 3: after concurrent Unsubscribe/Subscribe churn on two of four handlers, a probe event *)
+  so_probe_bad : nat                    (* handlers that did not get the probe exactly once (+10 if HandlerCount is not 4) *)
 }.
 
 Definition ok_stress (i : nat * nat * nat * bool) (o : stobs) : bool :=
@@ -24,6 +26,14 @@ Definition ok_stress (i : nat * nat * nat * bool) (o : stobs) : bool :=
   Nat.eqb (so_count o) nst &&
   (if store then Nat.eqb (so_records o) events else Nat.eqb (so_records o) 0) && Nat.eqb (so_disorder o) 0 &&
   Nat.eqb (so_escaped o) 0 &&
-  Nat.eqb (so_once_lost o) 0 && Nat.eqb (so_once_stale o) 0 && Nat.eqb (so_dead_seen o) 0.
+  Nat.eqb (so_once_lost o) 0 && Nat.eqb (so_once_stale o) 0 && Nat.eqb (so_dead_seen o) 0 && Nat.eqb (so_probe_bad o) 0.
 
 Definition check_stress (c : (nat * nat * nat * bool) * stobs) : bool * bool * nat := (true, ok_stress (fst c) (snd c), 0).
+
+(* waitstress.go: after every Wait, the handlers of the events the caller had published before have finished *)
+Record wsobs := { ws_early : nat;      (* Wait calls that returned while a handler of an earlier publish of the caller was unfinished *)
+                  ws_stuck : bool;     (* the run did not finish: some Wait never returned *)
+                  ws_escaped : nat; ws_running : nat }.
+Definition ok_wait (o : wsobs) : bool :=
+  Nat.eqb (ws_early o) 0 && negb (ws_stuck o) && Nat.eqb (ws_escaped o) 0 && Nat.eqb (ws_running o) 0.
+Definition check_wait (c : (nat * nat * nat) * wsobs) : bool * bool * nat := (true, ok_wait (snd c), 0).
